@@ -660,6 +660,12 @@ def replay(payload: dict) -> int:
     if not w:
         print("replay: no concrete input recorded; verifier output:", payload.get("verifier_output"))
         return 1
+    if w.get("ctor"):
+        from props import C17_bnd
+        fails, _ = C17_bnd.construction_cases()
+        msg = next((f["detail"] for f in fails if f["witness"] == w), fails[0]["detail"] if fails else None)
+        print("replay:", msg or "no violation on the current tree")
+        return 1 if msg else 0
     if w.get("canon"):
         from props import C17_bnd
         if "class" in w:
